@@ -446,6 +446,23 @@ def r7(ctx, rep):
             rep.bad(f"lazy-unwrap:{f['path']}:{t}", f"`{show(n, maxdepth=5)}` panics when `{t}` has no entry for the id: {LAZY_TABLES[t]} "
                     "(`from a | sort x | take 20 | group {k} (aggregate {s = sum v})` crashed this way)", file=f["file"], line=n["l"], fn=f["path"])
     rep.check(n_reads >= 5, "reads", f"expected >= 5 uses of the lazily filled tables under sql/, found {n_reads} in {n_fns} functions")
+    # values that are optional by design: the name inside `RelationColumn::Single(name)` is None for every unnamed column
+    n_pat = 0
+    for f in syn.fns:
+        if f["crate"] != "prqlc" or "/src/sql/" not in f["file"] or "body" not in f:
+            continue
+        for m in matches_of(f["body"]):
+            for arm in m["arms"]:
+                for alt in pat_alts(arm["pat"]):
+                    for pn in walk(alt):
+                        if pn.get("k") == "p_ts" and pn["p"].endswith("RelationColumn::Single") and pn["e"] and pn["e"][0].get("k") == "p_ident":
+                            n_pat += 1
+                            v = pn["e"][0]["n"]
+                            for u in walk(arm["body"]):
+                                if u.get("k") == "mcall" and u["m"] in ("unwrap", "expect") and show(u["r"]).replace(".clone()", "") == v:
+                                    rep.bad(f"optional-unwrap:{f['path']}:RelationColumn::Single", f"`{show(u, maxdepth=4)}`: the name of a relation column is None for an unnamed column (`select {{x+1, y+1}}` in a "
+                                            "sub-pipeline); unwrapping it panics", file=f["file"], line=u["l"], fn=f["path"])
+    rep.check(n_pat >= 1, "optional:patterns", f"expected >= 1 matches on RelationColumn::Single(name) under sql/, found {n_pat}")
 
 
 def r8(ctx, rep):
